@@ -920,7 +920,10 @@ def _check_convergence(scn, scared, att, rec, sf, EE, DD, cols_after_run, probes
     def same(x, y):
         return compare.bitwise(x, y) if tol is None else compare.close(x, y, tol)
 
-    if not same(ct[..., -1], np.asarray(att.scores).astype(ct.dtype)):
+    # columns are judged in the requested precision (not in whatever dtype the trace happens to be stored in)
+    cdt = np.dtype(scn['precision']) if np.dtype(scn['precision']).kind == 'f' else ct.dtype
+    ct = np.asarray(ct).astype(cdt)
+    if not same(ct[..., -1], np.asarray(att.scores).astype(cdt)):
         return viol('last_column_not_final_scores', [prop, 'last_column_not_final_scores', scn['kind']], 'last column differs from scores')
     sc_at = {}
     for b in bounds:
@@ -932,7 +935,7 @@ def _check_convergence(scn, scared, att, rec, sf, EE, DD, cols_after_run, probes
                     a.compute_results()
             else:
                 a = fresh_results(scn, sf, EE[:b], DD[:b])
-            sc_at[b] = np.asarray(a.scores).astype(ct.dtype)
+            sc_at[b] = np.asarray(a.scores).astype(cdt)
         except Exception:
             pass
     cands = [[b for b in bounds if b in sc_at and same(sc_at[b], ct[..., c])] for c in range(ncol)]
